@@ -27,7 +27,7 @@ ASSUMPTIONS = [
 TIMEOUT = {"quick": 900, "thorough": 4 * 3600}
 NSH = 16
 
-NAMES_Q = [None, "x", "My Project 1", "(version 07)", "a (version 07)", "12-34-56", "Zutritt Tür", "Reader{0}", "a{}b", "x}", "{version}", "{{site}}", "100%s", "%(name)s %d", "back\\slash \\1"]
+NAMES_Q = [None, "x", "My Project 1", "(version 07)", "a (version 07)", "12-34-56", "Zutritt Tür", "Reader{0}", "a{}b", "x}", "{version}", "{{site}}", "100%s", "%(name)s %d", "back\\slash \\1", "ends with blank ", "ends with tab\t", "ends with nbsp\u00a0", " ", " leading blank", "two  blanks  "]
 NAMES_T = NAMES_Q + ["name with  two spaces", "v (version 99) (version 00)", "12345-1234-1234-1", "1234-1234-1234-12 x", "ü", "a:b#c", "(version 7)", "x (version 123)", "12345-1234-1234-123"]
 AMBIGUOUS_NAMES = ["12345-1234-1234-12", "12345-1234-1234-12 foo", "00000-0000-0000-00 (version 07)", "12345-1234-1234-12x"]
 
